@@ -230,6 +230,19 @@ def _parse_iso8601_interval(text: str) -> _Interval:
         start = parse_iso8601(first)
         end = parse_iso8601(last)
 
+    for endpoint in (start, end):
+        # An endpoint is a date or a datetime, never a time or a duration
+        if endpoint is not None and not isinstance(endpoint, date):
+            raise ParserError("Invalid interval")
+
+    if duration is not None:
+        # A date next to a duration is taken at midnight
+        if start is not None and not isinstance(start, datetime):
+            start = datetime(start.year, start.month, start.day)
+
+        if end is not None and not isinstance(end, datetime):
+            end = datetime(end.year, end.month, end.day)
+
     return _Interval(
         cast(datetime, start), cast(datetime, end), cast(Duration, duration)
     )
